@@ -2,7 +2,7 @@
    Statements only (model/Eval.v mirrors get_column_expr_value with its per-row cache; model/Expr.v
    the Display text that is the cache key). *)
 From Coq Require Import List NArith ZArith Bool String.
-From FS Require Import lib.Str lib.Res gen.OpsGen gen.FieldGen gen.FuncGen model.Expr model.Parser model.Eval proofs.C15_expr.
+From FS Require Import lib.Str lib.Res gen.OpsGen gen.FieldGen gen.FuncGen model.Lexer model.Expr model.Parser model.Eval proofs.C15_expr proofs.DisplayProofs proofs.ArithRoundtrip proofs.RoundtripPfuel.
 Import ListNotations.
 
 (* the operator table of ArithmeticOp::calc, as regenerated from the source *)
@@ -15,5 +15,29 @@ Proof. reflexivity. Qed.
 Theorem C15_parse_witnesses : parse_witnesses_ok = true.
 Proof. exact parse_witnesses. Qed.
 
+(* ... and for EVERY arithmetic expression: an expression tree over numbers, columns, a leading minus
+   on either, and + - * / %, rendered to tokens with exactly the brackets the documented rules require
+   (`*`, `/`, `%` tighter than `+`, `-`; equal precedence associates to the left), is parsed by the
+   model of Parser::parse_add_sub - run with the parser's own fuel, at any position in any token list -
+   back to that very tree, consuming exactly the rendered tokens *)
+Theorem C15_parser_precedence_assoc : forall a pre post rp wp, wf a -> post_ok post ->
+  let T := (pre ++ render 0 a ++ post)%list in
+  parse_add_sub T (pfuel T) (mkPS (List.length pre) rp wp)
+  = Ok (ROk (Some (embed a)), mkPS (List.length pre + List.length (render 0 a)) rp wp).
+Proof. exact arith_roundtrip_pfuel. Qed.
+(* each column is evaluated on its own: the per-row cache of get_column_expr_value is keyed by the
+   Display text of the expression, and that text determines the expression - two different
+   arithmetic expressions never share a cache slot *)
+Theorem C15_cache_key_injective : forall a b, wf a -> wf b -> display (embed a) = display (embed b) -> a = b.
+Proof. exact display_injective. Qed.
+Theorem C15_cache_key_readable : forall a rest, wf a -> stops rest ->
+  undisplay (S (List.length (display (embed a) ++ rest))) (display (embed a) ++ rest) = Some (a, rest).
+Proof. exact undisplay_display_len. Qed.
+Example C15_wf_example : wf (ABin ASubtract (ABin AMultiply (ANum true (s "2"%string)) (ACol false FSize)) (ABin AAdd (ACol true FUid) (ANum false (s "10"%string)))) /\ post_ok [] /\ stops [].
+Proof. cbn. repeat split; discriminate. Qed.
+
 Print Assumptions C15_operator_table.
+Print Assumptions C15_parser_precedence_assoc.
+Print Assumptions C15_cache_key_injective.
+Print Assumptions C15_cache_key_readable.
 Print Assumptions C15_parse_witnesses.
